@@ -4,6 +4,8 @@
 package load
 
 import (
+	"path/filepath"
+	"go/parser"
 	"fmt"
 	"go/ast"
 	"go/token"
@@ -68,6 +70,9 @@ func Load(o Options) (*Program, error) {
 		packages.NeedTypes | packages.NeedTypesSizes | packages.NeedSyntax | packages.NeedTypesInfo | packages.NeedModule
 	if o.Whole {
 		mode |= packages.NeedDeps
+	}
+	if !o.AnyModule {
+		o.Overlay = inlineSingleUseConditions(o.RepoDir, o.Overlay)
 	}
 	cfg := &packages.Config{Mode: mode, Dir: o.RepoDir, Tests: false, Env: env(), Overlay: o.Overlay}
 	pats := o.Only
@@ -139,7 +144,81 @@ func Load(o Options) (*Program, error) {
 		p.SSAPkgs[sp.Pkg.Path()] = sp
 	}
 	p.AllFuncs = ssautil.AllFunctions(prog)
+	for f := range p.AllFuncs {
+		if pk := f.Package(); pk != nil && strings.HasPrefix(pk.Pkg.Path(), Module) {
+			canonicalizeComparisons(f)
+		}
+	}
 	return p, nil
+}
+
+// canonicalizeComparisons puts every comparison of a module function into one operand order, so that the rules
+// read `x == 0`, `err != nil`, `b.size < len(b.entries)` whichever way round the source has them (`0 == x`,
+// `nil != err`, `len(b.entries) > b.size` denote the same test). Operands are ranked constant > builtin len/cap
+// call > other call > field load > anything else; the higher-ranked operand goes to the right, the operator is
+// mirrored. Operands of equal rank are left as written. go/ssa values are rewritten in place; both operands keep
+// referring to the instruction, so referrer lists stay valid.
+func canonicalizeComparisons(f *ssa.Function) {
+	rank := func(v ssa.Value) int {
+		for {
+			switch x := v.(type) {
+			case *ssa.Convert:
+				v = x.X
+				continue
+			case *ssa.ChangeType:
+				v = x.X
+				continue
+			}
+			break
+		}
+		switch x := v.(type) {
+		case *ssa.Const:
+			return 4
+		case *ssa.Call:
+			if _, ok := x.Call.Value.(*ssa.Builtin); ok {
+				return 3
+			}
+			return 2
+		case *ssa.UnOp:
+			if x.Op == token.MUL {
+				if _, ok := x.X.(*ssa.FieldAddr); ok {
+					return 1
+				}
+				if _, ok := x.X.(*ssa.Global); ok {
+					return 2
+				}
+			}
+		case *ssa.Field:
+			return 1
+		case *ssa.Phi:
+			// a loop counter (a phi one of whose edges is itself plus a constant) stays on the left: i < n
+			for _, e := range x.Edges {
+				if bo, ok := e.(*ssa.BinOp); ok && bo.Op == token.ADD && bo.X == ssa.Value(x) {
+					if _, isC := bo.Y.(*ssa.Const); isC {
+						return -1
+					}
+				}
+			}
+		}
+		return 0
+	}
+	mirror := map[token.Token]token.Token{token.EQL: token.EQL, token.NEQ: token.NEQ, token.LSS: token.GTR, token.GTR: token.LSS, token.LEQ: token.GEQ, token.GEQ: token.LEQ}
+	for _, b := range f.Blocks {
+		for _, ins := range b.Instrs {
+			bo, ok := ins.(*ssa.BinOp)
+			if !ok {
+				continue
+			}
+			m, isCmp := mirror[bo.Op]
+			if !isCmp {
+				continue
+			}
+			if rank(bo.X) > rank(bo.Y) {
+				bo.X, bo.Y = bo.Y, bo.X
+				bo.Op = m
+			}
+		}
+	}
 }
 
 // Pkg returns the module package with the given path relative to the module root ("proxy").
@@ -318,4 +397,123 @@ func LoadTypesOnly(repoDir string, overlay map[string][]byte, pats ...string) (m
 		return nil, fmt.Errorf("no packages loaded for %v", pats)
 	}
 	return out, nil
+}
+
+// inlineSingleUseConditions is a behaviour-preserving desugaring applied to the module's own source before it is
+// type-checked: a boolean that is declared immediately before an `if`, is that if's whole condition and is named
+// nowhere else in the function
+//
+//	cnd := a != nil && strings.HasPrefix(m, p)
+//	if cnd {
+//
+// is read as `if a != nil && strings.HasPrefix(m, p) {`. Both forms evaluate the same expression at the same point;
+// go/ssa gives the second one the branch structure (one test per edge) that the rules read, the first one a
+// boolean phi. Line numbers are preserved (the expression keeps its own line breaks). The rewritten text exists
+// only in the go/packages overlay of this run.
+func inlineSingleUseConditions(repoDir string, overlay map[string][]byte) map[string][]byte {
+	out := map[string][]byte{}
+	for k, v := range overlay {
+		out[k] = v
+	}
+	dirs := []string{"proxy", "interceptor", "transport", "encryption", "auth", "config", "common", "collect", "proto/compat"}
+	var files []string
+	for _, d := range dirs {
+		_ = filepath.WalkDir(filepath.Join(repoDir, d), func(path string, de os.DirEntry, err error) error {
+			if err != nil {
+				return nil
+			}
+			if de.IsDir() {
+				if de.Name() == "test" || de.Name() == "mocks" {
+					return filepath.SkipDir
+				}
+				return nil
+			}
+			if strings.HasSuffix(path, ".go") && !strings.HasSuffix(path, "_test.go") && !strings.HasSuffix(path, "_gen.go") {
+				files = append(files, path)
+			}
+			return nil
+		})
+	}
+	for _, path := range files {
+		src, ok := out[path]
+		if !ok {
+			b, err := os.ReadFile(path)
+			if err != nil {
+				continue
+			}
+			src = b
+		}
+		if !strings.Contains(string(src), ":=") {
+			continue
+		}
+		fset := token.NewFileSet()
+		f, err := parser.ParseFile(fset, path, src, parser.ParseComments)
+		if err != nil {
+			continue
+		}
+		type edit struct {
+			from, to int
+			text     string
+		}
+		var edits []edit
+		off := func(p token.Pos) int { return fset.Position(p).Offset }
+		for _, d := range f.Decls {
+			fd, isFn := d.(*ast.FuncDecl)
+			if !isFn || fd.Body == nil {
+				continue
+			}
+			// how often each identifier name occurs in the function
+			count := map[string]int{}
+			ast.Inspect(fd.Body, func(n ast.Node) bool {
+				if id, ok := n.(*ast.Ident); ok {
+					count[id.Name]++
+				}
+				return true
+			})
+			ast.Inspect(fd.Body, func(n ast.Node) bool {
+				blk, ok := n.(*ast.BlockStmt)
+				if !ok {
+					return true
+				}
+				for i := 0; i+1 < len(blk.List); i++ {
+					as, ok := blk.List[i].(*ast.AssignStmt)
+					if !ok || as.Tok != token.DEFINE || len(as.Lhs) != 1 || len(as.Rhs) != 1 {
+						continue
+					}
+					id, ok := as.Lhs[0].(*ast.Ident)
+					if !ok || id.Name == "_" || count[id.Name] != 2 {
+						continue
+					}
+					iff, ok := blk.List[i+1].(*ast.IfStmt)
+					if !ok || iff.Init != nil {
+						continue
+					}
+					cid, ok := iff.Cond.(*ast.Ident)
+					if !ok || cid.Name != id.Name {
+						continue
+					}
+					switch as.Rhs[0].(type) {
+					case *ast.BinaryExpr, *ast.UnaryExpr, *ast.ParenExpr, *ast.CallExpr:
+					default:
+						continue
+					}
+					// no comment between the two statements that the edit would swallow
+					rhs := string(src[off(as.Rhs[0].Pos()):off(as.Rhs[0].End())])
+					edits = append(edits, edit{off(as.Pos()), off(as.End()), ""})
+					edits = append(edits, edit{off(cid.Pos()), off(cid.End()), rhs})
+				}
+				return true
+			})
+		}
+		if len(edits) == 0 {
+			continue
+		}
+		sort.Slice(edits, func(i, j int) bool { return edits[i].from > edits[j].from })
+		b := append([]byte{}, src...)
+		for _, e := range edits {
+			b = append(b[:e.from], append([]byte(e.text), b[e.to:]...)...)
+		}
+		out[path] = b
+	}
+	return out
 }
